@@ -119,6 +119,8 @@ class Replayer:
             elif c == 'lib_begin_block':
                 with s.begin():
                     pass
+            elif c == 'lib_begin_nested':
+                s.begin_nested()
             elif c == 'lib_rollback':
                 s.rollback()
             elif c == 'lib_query':
@@ -265,6 +267,8 @@ def run(ctx):
             ['lib_other_ro_reader', 'lib_other_rw_reader', 'lib_load', 'lib_delete', 'lib_flush', 'lib_begin_block', 'lib_close', 'lib_load', 'lib_add', 'lib_commit'],
             ['lib_load', 'lib_delete', 'lib_flush', 'lib_begin_block', 'lib_query', 'lib_close'],
             ['lib_load', 'lib_query', 'lib_bulk_update', 'lib_commit', 'lib_flush', 'lib_close', 'cli_query'],
+            ['lib_load', 'lib_begin_nested', 'lib_bulk_update', 'lib_commit', 'lib_close', 'cli_query'],
+            ['lib_load', 'lib_edit', 'lib_begin_nested', 'lib_execute_update', 'lib_commit', 'lib_flush', 'lib_begin_nested', 'lib_commit', 'lib_query', 'lib_close', 'cli_query'],
             ['lib_load_ctx_engine_first', 'lib_edit', 'lib_flush', 'lib_commit', 'lib_query', 'lib_close'],
             ['lib_other_sigfile_rw', 'lib_load', 'lib_read_sigs', 'lib_query', 'lib_close', 'lib_other_sigfile_rw', 'lib_load_ctx', 'lib_read_sigs', 'lib_close'],
             ['lib_load_ctx', 'lib_delete', 'lib_flush', 'lib_commit', 'lib_close', 'lib_load_ctx_engine_first', 'lib_add', 'lib_query', 'lib_begin_block', 'lib_close'],
